@@ -1,2 +1,133 @@
-def run_for_property(prop, seed):
-    return {"seeds": 0, "note": "not built yet"}
+"""Self-validation of the rules (thorough tier): every registered seed — a small edit of one
+named construct of the *current* tree, applied to a scratch copy outside /repo and /verif —
+must make exactly the named rule instance fire; every neutral (behaviour-preserving) variant
+must keep the property's rules silent. A seed that no longer applies because /repo moved on,
+or that no longer compiles, is reported as skipped, never as a failure of the property."""
+import json
+import os
+import shutil
+import subprocess
+import sys
+import tempfile
+
+HERE = os.path.dirname(os.path.abspath(__file__))
+sys.path.insert(0, os.path.join(HERE, "analysis"))
+
+
+def load(name):
+    p = os.path.join(HERE, "selftest", name)
+    if not os.path.exists(p):
+        return []
+    with open(p) as f:
+        return json.load(f)
+
+
+def make_scratch(repo="/repo"):
+    d = tempfile.mkdtemp(prefix="memc-selftest-")
+    subprocess.check_call("cd %s && tar --exclude=./target --exclude=./.git -cf - . | tar -xf - -C %s" % (repo, d), shell=True)
+    return d
+
+
+def apply_edits(d, edits):
+    """edits: list of {file, old, new}; returns None if ok else reason"""
+    for e in edits:
+        p = os.path.join(d, e["file"])
+        if not os.path.exists(p):
+            return "file missing: %s" % e["file"]
+        s = open(p).read()
+        n = s.count(e["old"])
+        if n == 0:
+            return "construct not found in %s" % e["file"]
+        if n > 1 and not e.get("all"):
+            idx = e.get("occurrence", 0)
+            parts = s.split(e["old"])
+            if idx >= len(parts) - 1:
+                return "occurrence %d not found" % idx
+            s = e["old"].join(parts[: idx + 1]) + e["new"] + e["old"].join(parts[idx + 1 :])
+        else:
+            s = s.replace(e["old"], e["new"])
+        open(p, "w").write(s)
+    return None
+
+
+def run_check(prop, repo):
+    out = tempfile.mkdtemp(prefix="memc-selftest-ev-")
+    try:
+        r = subprocess.run([os.path.join(HERE, "check"), prop, "--repo", repo, "--out", out, "--tier", "quick"], stdout=subprocess.PIPE, stderr=subprocess.PIPE, text=True)
+        keys = [l.strip().split("  ")[0] for l in r.stdout.splitlines() if l.startswith("  C")]
+        return r.returncode, keys, r.stderr
+    finally:
+        shutil.rmtree(out, ignore_errors=True)
+
+
+def run_seed(seed, prop=None):
+    prop = prop or seed["property"]
+    d = make_scratch()
+    try:
+        why = apply_edits(d, seed["edits"])
+        if why:
+            return {"id": seed["id"], "status": "skipped", "reason": why}
+        rc, keys, err = run_check(prop, d)
+        if rc == 2:
+            if "cannot extract facts" in err:
+                return {"id": seed["id"], "status": "skipped", "reason": "variant does not compile"}
+            return {"id": seed["id"], "status": "error", "reason": err[-400:]}
+        return {"id": seed["id"], "status": "ran", "rc": rc, "keys": keys}
+    finally:
+        shutil.rmtree(d, ignore_errors=True)
+
+
+def run_for_property(prop, seed_value=0, only=None):
+    seeds = [s for s in load("seeds.json") if s["property"] == prop]
+    neutrals = load("neutral.json")
+    if seed_value:
+        import random
+
+        random.Random(seed_value).shuffle(seeds)
+    res = {"seeds": 0, "fired": 0, "skipped": [], "failed": [], "neutral": 0, "neutral_silent": 0, "details": []}
+    for s in seeds:
+        if only and s["id"] not in only:
+            continue
+        r = run_seed(s)
+        res["seeds"] += 1
+        if r["status"] == "skipped":
+            res["skipped"].append("%s (%s)" % (s["id"], r["reason"]))
+            continue
+        if r["status"] == "error":
+            res["failed"].append("%s: checker error: %s" % (s["id"], r["reason"]))
+            continue
+        hit = [k for k in r["keys"] if s["expect"] in k]
+        if r["rc"] == 1 and hit:
+            res["fired"] += 1
+            res["details"].append({"seed": s["id"], "what": s["what"], "fires": hit[:3]})
+        else:
+            res["failed"].append("%s: expected a violation matching '%s', got rc=%s keys=%s" % (s["id"], s["expect"], r["rc"], r["keys"][:4]))
+    for n in neutrals:
+        if only and n["id"] not in only:
+            continue
+        if n.get("properties") and prop not in n["properties"]:
+            continue
+        r = run_seed(n, prop)
+        res["neutral"] += 1
+        if r["status"] == "skipped":
+            res["skipped"].append("%s (%s)" % (n["id"], r["reason"]))
+            continue
+        if r["status"] == "error":
+            res["failed"].append("%s: checker error: %s" % (n["id"], r["reason"]))
+            continue
+        if r["rc"] == 0:
+            res["neutral_silent"] += 1
+        else:
+            res["failed"].append("neutral variant %s (%s) makes the check fire: %s" % (n["id"], n["what"], r["keys"][:4]))
+    return res
+
+
+if __name__ == "__main__":
+    props = sys.argv[1:2]
+    only = set(sys.argv[2:]) or None
+    allp = sorted(set(s["property"] for s in load("seeds.json")))
+    for p in props if props and props[0] != "all" else allp:
+        r = run_for_property(p, 0, only)
+        print(p, json.dumps({k: v for k, v in r.items() if k != "details"}, indent=1))
+        for d in r["details"]:
+            print("   ", d["seed"], "->", d["fires"][0][:150])
